@@ -60,6 +60,19 @@ def groups(tier: str):
     yield ("k2_k2_same", ["w(A)", "w(B)", "q(A)", "q(B)"], ["A != B"], ["A", "B"], None)
     yield ("k3_k3_same", ["w(A)", "w(B)", "w(C)", "q(A)", "q(B)", "q(C)"], ["A != B", "B != C", "A != C"], ["A", "B", "C"], None)
     yield ("two_groups_eqpos", ["w(X)", "w(Y)", "p(A,X)", "p(B,X)"], ["X != Y", "A != B"], ["X", "Y", "A", "B"], None)
+    # a compared variable at two different argument positions: exchanging the atoms is no symmetry
+    yield ("pos_chain", ["p(A,B)", "p(B,C)"], ["A != B", "B != C"], ["A", "B", "C"], None)
+    yield ("pos_chain_lt", ["p(A,B)", "p(B,C)"], ["A < B", "B != C"], ["A", "B", "C"], None)
+    yield ("pos_cycle3", ["p(A,B)", "p(B,C)", "p(C,A)"], ["A != B", "B != C", "A != C"], ["A", "B", "C"], None)
+    yield ("pos_back", ["p(A,B)", "p(C,A)"], ["A != C", "B != A"], ["A", "B", "C"], None)
+    yield ("pos_swap", ["p(A,B)", "p(B,A)"], ["A != B"], ["A", "B"], None)
+    # compound terms at the equal positions
+    yield ("arith_equal", ["p(G+1,A)", "p(G+1,B)", "d(G)"], ["A != B"], ["A", "B"], "G")
+    yield ("const_equal", ["p(1,A)", "p(1,B)"], ["A != B"], ["A", "B"], None)
+    # a positive and a negated atom of the same predicate
+    yield ("signs_mixed", ["p(B,A)", "not p(A,B)"], ["A != B"], ["A", "B"], None)
+    yield ("signs_neg", ["w(A)", "w(B)", "not p(B,A)", "not p(A,B)"], ["A != B"], ["A", "B"], None)
+    yield ("signs_dneg", ["p(B,A)", "not not p(A,B)"], ["A != B"], ["A", "B"], None)
     # zero-ary group (no shared argument)
     yield ("p1k2", ["w(A)", "w(B)"], ["A != B"], ["A", "B"], None)
     yield ("p1k3", ["w(A)", "w(B)", "w(C)"], ["A != B", "B != C", "A != C"], ["A", "B", "C"], None)
@@ -111,7 +124,7 @@ def universe(kind: str, uses: set, tier: str) -> list[str]:
     pre = "" if kind == "input" else "d"
     u = []
     if "p" in uses:
-        u += [f"{pre}p(1,1)", f"{pre}p(1,2)", f"{pre}p(1,3)", f"{pre}p(2,2)"]
+        u += [f"{pre}p(1,1)", f"{pre}p(1,2)", f"{pre}p(1,3)", f"{pre}p(2,2)", f"{pre}p(2,1)"]
     if "p3" in uses:
         u += [f"{pre}p3(1,1,1)", f"{pre}p3(1,2,1)", f"{pre}p3(1,2,2)", f"{pre}p3(1,3,1)"]
     if "w" in uses and kind == "input":
@@ -138,7 +151,9 @@ def jobs(tier: str):
                 for cname, ctx in CONTEXTS:
                     if gvar is None and "{G}" in ctx and cname in ("ruleG", "choiceG", "aggG"):
                         continue
-                    body = "; ".join(lits + cmps + ([extra.replace("{{", "{").replace("}}", "}")] if extra else []))
+                    # inside an aggregate element / the condition of a conditional literal `;` would start a new element
+                    sep = ", " if cname in ("agg", "aggA", "aggG", "nagg", "nnagg", "ncond") else "; "
+                    body = sep.join(lits + cmps + ([extra.replace("{{", "{").replace("}}", "}")] if extra else []))
                     g = gvar or "0"
                     stm = ctx.format(B=body, G=g)
                     for pname, pdef, inp in PDEFS:
